@@ -33,6 +33,7 @@ var lwTemplates = map[string][]pwTemplate{
 	},
 	"runner-label": {
 		pwCompile("label-unknown", `label @q@ is unknown. available labels are @x@`),
+		pwCompile("label-pattern-invalid", `label pattern @q@ is an invalid glob. kindly check list of labels in actionlint.yaml config file: @x@`),
 		pwCompile("label-conflict", `label @q@ conflicts with label @q@ defined at @p@. note: to run your job on each workers, use matrix`),
 	},
 	"shell-name": {pwCompile("shell-name", `shell name @q@ is invalid@o@. available names are @x@`)},
